@@ -84,7 +84,7 @@ pub fn run(seed: u64, n: usize, outdir: &str, _corpus: Option<&str>) -> std::io:
     for _ in 0..n {
         let sub = master.next();
         let mut rng = Rng(sub);
-        let go = GenOpts { force_space: false, allow_uncovered: false, with_user: 0, tie_heavy: rng.chance(1, 3), malformed: false };
+        let go = GenOpts { force_space: false, allow_uncovered: false, with_user: 0, tie_heavy: rng.chance(1, 3), malformed: false, many_ids: false };
         let mut gd = gen_dict(&mut rng, &go);
         // half of the dictionaries use a raw or dual bigram connector instead of matrix.def
         // (duplicate feature rows make several ids share one row of the dual connector's matrix)
